@@ -47,7 +47,7 @@ def run(ctx, rep, tier):
     rep.rule("B1", "fixed-size array subscripts bounded by dominating guards (interval evaluation)", min_instances=3)
     rep.rule("B2", "assert-preconditions of effort helpers discharged by throwing guards at every call site", min_instances=4)
     rep.rule("G17", "vector length compared with nbCells()/nbNets() (throw) before any member write", min_instances=10)
-    rep.rule("G18", "pin cell indices and net limits validated by throw before pins are stored", min_instances=2)
+    rep.rule("G18", "pin cell indices and net limits validated by throw before pins are stored", min_instances=3)
     rep.rule("G18b", "no assert()-based validation of arguments in public Circuit mutators", min_instances=1)
     rep.rule("P2", "params.check() first in the algorithm entry points", min_instances=3)
     check_b1(ctx, rep)
@@ -320,6 +320,94 @@ def check_g18(ctx, rep):
     for q in NET_BUILDERS:
         f = prog.func1(CQ + q)
         check_pin_validation(ctx, rep, f)
+    check_limits_validation(ctx, rep, prog.func1(CQ + "Circuit::setNets"))
+
+
+def check_limits_validation(ctx, rep, f):
+    """setNets: the net limits are validated pairwise over the *whole* vector (every adjacent pair compared, throwing when
+    decreasing), the first limit is 0 and the last equals the number of pins, all before netLimits_ is written."""
+    from .c06 import poly
+    from .common import for_loop_info, expand_locals
+    g = cfg_of(f)
+    lim = [p for p in f.params if p.get("name") == "limits"]
+    if not lim:
+        rep.unknown("G18", f.decl, f, "net limits", "no parameter named limits")
+        return
+    lv = ("var", lim[0].get("id"), "limits")
+    atoms = {"N": lambda c: c == ("call", "size", lv)}
+    covered = None
+    problems = []
+    for x in walk(f.body):
+        if x.get("kind") != "ForStmt":
+            continue
+        li = for_loop_info(x)
+        if not li or li["hi"] is None or li["step"] != 1:
+            continue
+        hi = poly(expand_locals(ctx, f, li["hi"]), atoms)
+        lo = poly(li["lo"], atoms) if li["lo"] is not None else None
+        if hi is None or lo is None or set(hi) - {(), ("N",)} or set(lo) - {()}:
+            continue
+        incn = g.node_for(li["inc"])
+        iv = li["var"]
+        for ast, val, _e in g.dom_edges(incn):
+            c = canon(ast)
+            if c[0] != "bin" or c[1] not in ("<", ">", "<=", ">="):
+                continue
+            sides = []
+            for t in (c[2], c[3]):
+                if t[0] == "index" and t[1] == lv:
+                    pi = poly(t[2], {"i": lambda cc: cc == iv})
+                    if pi is not None and pi.get(("i",), 0) == 1.0 and not (set(pi) - {(), ("i",)}):
+                        sides.append(int(pi.get((), 0)))
+                    else:
+                        sides.append(None)
+                else:
+                    sides.append(None)
+            if None in sides or abs(sides[0] - sides[1]) != 1:
+                continue
+            a, b = sides
+            # the fall-through must imply limits[low] <= limits[low + 1]
+            lowfirst = a < b
+            op = c[1]
+            implied = (op == ">" and lowfirst and val is False) or (op == "<" and not lowfirst and val is False) or \
+                      (op == "<=" and lowfirst and val is True) or (op == ">=" and not lowfirst and val is True)
+            if not implied:
+                continue
+            off = min(a, b)
+            first = lo.get((), 0) + off
+            last_c = hi.get((), 0) - 1 + off          # constant part of the last lower index
+            last_n = hi.get(("N",), 0)
+            done = [n for n in g.nodes if n.kind == "edge" and n.val is False and n.ast is strip(list(inner(x))[2])]
+            covered = (first, last_n, last_c, done[0] if done else None, x)
+    if covered is None:
+        rep.violation("G18", f.decl, f, "net limits are not validated pairwise", "no loop that throws unless limits[k] <= limits[k+1]",
+                      key="Circuit::setNets|limits monotonicity not validated")
+        return
+    first, last_n, last_c, done, loop = covered
+    if not (first == 0 and last_n == 1.0 and last_c == -2):
+        rep.violation("G18", loop, f, "net-limit validation does not cover every adjacent pair",
+                      "pairs (k, k+1) are checked for k from %d to %s%+d; all of 0 .. limits.size()-2 are required: an undetected decrease lets a net "
+                      "claim pins beyond the pin arrays" % (first, "limits.size()" if last_n else "", last_c),
+                      key="Circuit::setNets|limits validation incomplete")
+        return
+    # front == 0, back == pins, and everything before the first write to netLimits_
+    s = ctx.eff.summary(f)
+    ws = s["writes"].get(CQ + "Circuit::netLimits_", [])
+    okdom = done is not None and all(g.dominates(done, g.node_for(u.node)) for _x, u in ws)
+    ends = {"front": False, "back": False}
+    for _x, u in ws:
+        for gc, val, _a, _b in (ctx.guards(f, u.node) or []):
+            t = pretty(gc)
+            if "limits.front()" in t and "0" in t and ((gc[1] == "!=" and val is False) or (gc[1] == "==" and val is True)):
+                ends["front"] = True
+            if "limits.back()" in t and "cells.size()" in t and ((gc[1] == "!=" and val is False) or (gc[1] == "==" and val is True)):
+                ends["back"] = True
+    if okdom and all(ends.values()):
+        rep.holds("G18", loop, f, "net limits: first == 0, every adjacent pair non-decreasing, last == number of pins, all before anything is stored")
+    else:
+        rep.violation("G18", loop, f, "net limits are not fully validated before they are stored",
+                      "pairwise loop completes before the store: %s; front()==0 checked: %s; back()==cells.size() checked: %s" % (okdom, ends["front"], ends["back"]),
+                      key="Circuit::setNets|limits validation not before store")
 
 
 def check_pin_validation(ctx, rep, f):
